@@ -90,10 +90,10 @@ def plan(tier):
     """(sizes, kind, maxstop, maxhide, assertions)"""
     if tier == "quick":
         return [((1, 6), "user", None, None, 0), ((1, 5), "light", None, None, 1), ((1, 4), "weird", None, None, 0), ((1, 4), "eqhash", None, None, 0), ((1, 4), "falsylight", None, None, 1),
-                ((1, 4), "container", None, None, 0), ((1, 5), "node", None, None, 0), ((7, 7), "user", 1, 1, 0), ((8, 8), "light", 1, 0, 0),
+                ((1, 4), "container", None, None, 0), ((1, 4), "tuplenode", None, None, 0), ((1, 4), "tuple0", None, None, 1), ((1, 5), "node", None, None, 0), ((7, 7), "user", 1, 1, 0), ((8, 8), "light", 1, 0, 0),
                 ((8, 8), "node", 0, 1, 1)]
     return [((1, 7), "user", None, None, 0), ((1, 6), "light", None, None, 1), ((1, 5), "weird", None, None, 0), ((1, 5), "eqhash", None, None, 0), ((1, 5), "falsylight", None, None, 1),
-            ((1, 5), "container", None, None, 0), ((1, 6), "node", None, None, 1), ((8, 8), "node", 2, 2, 0), ((9, 9), "user", 1, 1, 0)]
+            ((1, 5), "container", None, None, 0), ((1, 5), "tuplenode", None, None, 0), ((1, 5), "tuple0", None, None, 1), ((1, 6), "node", None, None, 1), ((8, 8), "node", 2, 2, 0), ((9, 9), "user", 1, 1, 0)]
 
 
 def run(tier):
